@@ -3,6 +3,7 @@ import NeatviVerif.Lemmas.C11Emit
 import NeatviVerif.Lemmas.C11Wf
 import NeatviVerif.Lemmas.C11VM
 import NeatviVerif.Lemmas.C11Range
+import NeatviVerif.Lemmas.C11cCount
 /-!
 # C11: the regex compiler and VM stay inside their bounds
 
@@ -11,6 +12,9 @@ induction (on the parser fuel, the tree, and the measure of the VM), never by bo
 
 * `parse_bounds`, `parse_bounds_parse`: repetition bounds of every parsed node are well formed;
 * `emit_length`, `emitLen_le_count`, `program_fits`: the compiled program fits the allocation;
+* `program_within_limit`, `regcomp_rejects_huge`: the allocation and the program never exceed
+  `NCODE` instructions; nested repetitions beyond that are refused (the clamped count `countSat`
+  of the C code equals `min (count t) NCODE`: `NeatviVerif/Lemmas/C11cCount.lean`);
 * `jmpend_bounded`: the `jmpend[NREPS]` array of `rnode_emit` is never overrun;
 * `emit_wf`, `regcomp_wf`: every edge of a compiled program stays inside the program and jumps and
   second fork targets go forward;
@@ -54,10 +58,15 @@ theorem emit_length (t : RNode) (base : Nat) : (emit t base).length = emitLen t 
 theorem emitLen_le_count (t : RNode) (h : TreeOk t) : (emitLen t : Int) ≤ count t :=
   emitLen_le_count_aux t h
 
-/-- The compiled program always fits the memory reserved for it (`rnode_count + 3` instructions),
-    for every pattern and all flags. -/
-theorem program_fits (p : Bytes) (flg : Nat) (prog : Prog)
-    (h : regcomp p flg = some (some prog)) : prog.fits = true := by
+/-- What `regcomp` returns on success: the tree is well formed, its clamped size estimate passed
+    the limit test — hence equals the unbounded estimate — and the program is the emitted code of
+    the numbered tree with `rnode_count + 3` instructions allocated. -/
+theorem regcomp_some (p : Bytes) (flg : Nat) (prog : Prog)
+    (h : regcomp p flg = some (some prog)) :
+    ∃ t, parse p = some (some t) ∧ TreeOk t ∧ countSat t + 3 ≤ (Gen.NCODE : Int) ∧
+      countSat t = count t ∧
+      prog = { code := [Inst.mark 0] ++ emit (grpnum t 1).1 1 ++ [Inst.mark 1, Inst.mtch],
+               alloc := countSat t + 3, flg := flg } := by
   unfold regcomp at h
   split at h
   · cases h
@@ -65,13 +74,42 @@ theorem program_fits (p : Bytes) (flg : Nat) (prog : Prog)
   · rename_i t ht
     split at h
     · cases h
+    rename_i hlim
     simp only [Option.some.injEq] at h
-    subst h
-    have h1 := emitLen_le_count t (parse_ok ht)
-    have h2 := emitLen_grpnum t 1
-    simp only [Prog.fits, decide_eq_true_eq, List.length_append, List.length_cons,
-      List.length_nil, emit_length, h2]
-    omega
+    have hle : countSat t + 3 ≤ (Gen.NCODE : Int) := by omega
+    exact ⟨t, ht, parse_ok ht, hle, Lemmas.C11c.countSat_small t (parse_ok ht) hle, h.symm⟩
+
+/-- The compiled program always fits the memory reserved for it (`rnode_count + 3` instructions),
+    for every pattern and all flags. -/
+theorem program_fits (p : Bytes) (flg : Nat) (prog : Prog)
+    (h : regcomp p flg = some (some prog)) : prog.fits = true := by
+  obtain ⟨t, _, hok, _, heq, rfl⟩ := regcomp_some p flg prog h
+  have h1 := emitLen_le_count t hok
+  have h2 := emitLen_grpnum t 1
+  simp only [Prog.fits, decide_eq_true_eq, List.length_append, List.length_cons,
+    List.length_nil, emit_length, h2]
+  omega
+
+/-- The allocation and the program never exceed `NCODE` instructions. -/
+theorem program_within_limit (p : Bytes) (flg : Nat) (prog : Prog)
+    (h : regcomp p flg = some (some prog)) :
+    prog.alloc ≤ (Gen.NCODE : Int) ∧ (prog.code.length : Int) ≤ (Gen.NCODE : Int) := by
+  have hf := program_fits p flg prog h
+  obtain ⟨t, _, _, hle, _, rfl⟩ := regcomp_some p flg prog h
+  simp only [Prog.fits, decide_eq_true_eq] at hf
+  exact ⟨hle, Int.le_trans hf hle⟩
+
+/-- `regcomp` refuses exactly the well-parsed patterns whose (unbounded) size estimate is beyond
+    the limit: the clamping of the C arithmetic does not change the decision. -/
+theorem regcomp_rejects_iff (p : Bytes) (flg : Nat) (t : RNode) (ht : parse p = some (some t)) :
+    regcomp p flg = some none ↔ count t + 3 > (Gen.NCODE : Int) := by
+  rw [Lemmas.C11c.countSat_big t (parse_ok ht)]
+  unfold regcomp
+  rw [ht]
+  simp only
+  split
+  · simp [*]
+  · simp [*]
 
 /-! ## 5. the `jmpend` array -/
 
@@ -185,6 +223,33 @@ example : ¬ TreeOk (.atom ⟨AK.chr, [97]⟩ 3 2) := by decide
 example : (regcomp [97, 123, 50, 48, 48, 125] 0).map (·.isNone) = some true := by decide +kernel
 example : (regcomp [97, 123, 49, 50, 56, 125] 0).map (·.map (fun p => (p.fits, p.code.length, p.alloc))) =
     some (some (true, 131, 259)) := by decide +kernel
+
+/-- Five nested `{128}`: `(((((a{128}){128}){128}){128}){128})`.  The size estimate is beyond
+    `2^40`: the `int` arithmetic of the C code used to wrap around. -/
+def hugePat : Bytes :=
+  [40, 40, 40, 40, 40, 97, 123, 49, 50, 56, 125, 41, 123, 49, 50, 56, 125, 41, 123, 49, 50, 56, 125,
+   41, 123, 49, 50, 56, 125, 41, 123, 49, 50, 56, 125, 41]
+
+example : hugePat = "(((((a{128}){128}){128}){128}){128})".toList.map Char.toNat := by decide
+
+/-- its parse tree -/
+def hugeTree : RNode :=
+  .grp (.grp (.grp (.grp (.grp (.atom ⟨AK.chr, [97]⟩ 128 128) 0 128 128) 0 128 128) 0 128 128) 0 128 128) 0 1 1
+
+theorem hugePat_parse : parse hugePat = some (some hugeTree) := by decide +kernel
+
+/-- the unbounded estimate of that tree, and the clamped one -/
+example : count hugeTree = 1108135248386 ∧ countSat hugeTree = (Gen.NCODE : Int) := by decide +kernel
+
+/-- … and it is refused: `regcomp` returns 1. -/
+theorem regcomp_rejects_huge : regcomp hugePat 0 = some none :=
+  (regcomp_rejects_iff hugePat 0 hugeTree hugePat_parse).mpr (by decide +kernel)
+
+/-- `((a{128}){2})` — `count = 1034` — compiles, fits, and nothing was clamped. -/
+theorem regcomp_accepts_nested :
+    (regcomp [40, 40, 97, 123, 49, 50, 56, 125, 41, 123, 50, 125, 41] 0).map
+      (·.map (fun p => (p.fits, p.code.length, p.alloc))) = some (some (true, 265, 1037)) := by
+  decide +kernel
 
 end Neatvi.Props.C11
 
